@@ -314,10 +314,57 @@ Definition entry_wf_obj (rec : json -> list dentry -> bool) (kv : list (pystr * 
       end
   end.
 
-Lemma wf_arr_entries f items d :
-  wf_diff (S f) (JArr items) d = true -> forall e, In e d -> entry_wf_arr (wf_diff f) items e = true.
+Definition wf_seq_of (rec : json -> list dentry -> bool) (items : list json) :=
+  fix wf_seq (c : nat) (add_ok : bool) (d : list dentry) {struct d} : bool :=
+    match d with
+    | [] => true
+    | DAddRange (KI k) (VList l) :: r =>
+        negb (Nat.eqb (List.length l) 0) && Nat.leb k (List.length items)
+        && (Nat.ltb c k || (Nat.eqb c k && add_ok)) && wf_seq k false r
+    | DRemoveRange (KI k) len :: r =>
+        negb (Nat.eqb len 0) && Nat.leb c k && Nat.leb (k + len) (List.length items)
+        && wf_seq (k + len) true r
+    | DPatch (KI k) dd :: r =>
+        Nat.leb c k &&
+        match nth_error items k with
+        | Some x => is_container x && negb (Nat.eqb (List.length dd) 0) && rec x dd
+        | None => false
+        end && wf_seq (k + 1) true r
+    | _ => false
+    end.
+
+Definition wf_map_of (rec : json -> list dentry -> bool) (kv : list (pystr * json)) :=
+  fix wf_map (prev : option pystr) (d : list dentry) {struct d} : bool :=
+    match d with
+    | [] => true
+    | e :: r =>
+        match dkey e with
+        | KI _ => false
+        | KS k =>
+            match prev with None => true | Some p => str_ltb p k end &&
+            match e with
+            | DAdd _ _ => negb (obj_has k kv)
+            | DRemove _ => obj_has k kv
+            | DReplace _ _ => obj_has k kv
+            | DPatch _ dd =>
+                match obj_get k kv with
+                | Some x => is_container x && negb (Nat.eqb (List.length dd) 0) && rec x dd
+                | None => false
+                end
+            | _ => false
+            end && wf_map (Some k) r
+        end
+    end.
+
+Lemma wf_diff_arr f items d : wf_diff (S f) (JArr items) d = wf_seq_of (wf_diff f) items 0 true d.
+Proof. reflexivity. Qed.
+Lemma wf_diff_obj f kv d : wf_diff (S f) (JObj kv) d = wf_map_of (wf_diff f) kv None d.
+Proof. reflexivity. Qed.
+
+Lemma wf_seq_entries rec items d : forall c0 ok,
+  wf_seq_of rec items c0 ok d = true -> forall e, In e d -> entry_wf_arr rec items e = true.
 Proof.
-  simpl. generalize 0 as c0, true as ok. induction d as [|e d IH]; intros c0 ok H x I; [destruct I|].
+  induction d as [|e d IH]; intros c0 ok H x I; [destruct I|].
   destruct I as [<-|I].
   - destruct e as [k v|k|k v|k vs|k len|k dd]; try discriminate; destruct k as [k|k]; try (destruct vs); simpl in H; try discriminate.
     + reflexivity.
@@ -331,19 +378,26 @@ Proof.
     + apply andb_true_iff in H as [_ H]. eapply IH; eauto.
 Qed.
 
-Lemma wf_obj_entries f kv d :
-  wf_diff (S f) (JObj kv) d = true -> forall e, In e d -> entry_wf_obj (wf_diff f) kv e = true.
+Lemma wf_arr_entries f items d :
+  wf_diff (S f) (JArr items) d = true -> forall e, In e d -> entry_wf_arr (wf_diff f) items e = true.
+Proof. rewrite wf_diff_arr. apply wf_seq_entries. Qed.
+
+Lemma wf_map_entries rec kv d : forall prev,
+  wf_map_of rec kv prev d = true -> forall e, In e d -> entry_wf_obj rec kv e = true.
 Proof.
-  simpl. generalize (@None pystr) as prev. induction d as [|e d IH]; intros prev H x I; [destruct I|].
-  unfold entry_wf_obj. destruct I as [<-|I].
+  induction d as [|e d IH]; intros prev H x I; [destruct I|].
+  unfold entry_wf_obj. simpl in H. destruct I as [<-|I].
   - destruct (dkey e) as [i|k] eqn:Ek; try discriminate.
     apply andb_true_iff in H as [H _]. apply andb_true_iff in H as [_ H].
     destruct e; try discriminate; auto.
-    + apply negb_true_iff in H. reflexivity.
-    + destruct (obj_get k kv); try discriminate. apply andb_true_iff in H as [_ H]. exact H.
+    destruct (obj_get k kv); try discriminate. apply andb_true_iff in H as [_ H]. exact H.
   - destruct (dkey e) as [i|k] eqn:Ek; try discriminate.
     apply andb_true_iff in H as [_ H]. eapply (IH (Some k)); eauto.
 Qed.
+
+Lemma wf_obj_entries f kv d :
+  wf_diff (S f) (JObj kv) d = true -> forall e, In e d -> entry_wf_obj (wf_diff f) kv e = true.
+Proof. rewrite wf_diff_obj. apply wf_map_entries. Qed.
 
 Lemma insert_entry_in e x l : In x (insert_entry e l) -> x = e \/ In x l.
 Proof.
@@ -406,7 +460,7 @@ Proof.
     { apply forallb_forall. intros e I. specialize (W e I). unfold entry_wf_obj in W. unfold is_ks.
       destruct (dkey e); [discriminate | reflexivity]. }
     unfold sort_entries. rewrite S1. simpl.
-    apply render_entries_ok. intros e I. apply sort_by_dkey_in in I. specialize (W e I).
+    apply render_entries_ok. intros e I. apply (proj1 (sort_by_dkey_in _ _)) in I. specialize (W e I).
     unfold render_entry, entry_wf_obj in *.
     destruct (should_ignore_path c path); eauto.
     destruct (dkey e) as [i|k] eqn:Ek; try discriminate.
@@ -489,22 +543,23 @@ Proof.
               | DPatch k dd => match index a k with Ok v => touches f c v dd (path ++ [k]) | Err _ => false end
               | _ => false end)) = true ->
             forall x, render_entry (render_diff f c O) c a e path = Ok x -> x <> []).
-  { intros e I V x Hx. unfold render_entry in Hx. apply orb_true_iff in V. destruct V as [V|V].
+  { intros e I V x Hx. unfold render_entry in Hx. cbv zeta in Hx. apply orb_true_iff in V. destruct V as [V|V].
     - unfold leaf_visible in V. apply andb_true_iff in V as [V1 V2]. apply negb_true_iff in V1. rewrite V1 in Hx.
-      destruct e; try discriminate; simpl in V2; try (apply negb_true_iff in V2; rewrite V2 in Hx).
-      + inversion Hx. discriminate.
-      + destruct (index a k); try discriminate. inversion Hx. discriminate.
-      + destruct (index a k); try discriminate. inversion Hx. discriminate.
-      + inversion Hx. discriminate.
-      + destruct (slice_check a k); try discriminate. inversion Hx. discriminate.
+      destruct e; try discriminate; cbn [dkey] in Hx, V2; try (apply negb_true_iff in V2; rewrite V2 in Hx).
+      + intro E; rewrite E in Hx; discriminate Hx.
+      + destruct (index a k); try discriminate; simpl in Hx. intro E; rewrite E in Hx; discriminate Hx.
+      + destruct (index a k); try discriminate; simpl in Hx. intro E; rewrite E in Hx; discriminate Hx.
+      + intro E; rewrite E in Hx; discriminate Hx.
+      + destruct (slice_check a k); try discriminate; simpl in Hx. intro E; rewrite E in Hx; discriminate Hx.
     - apply andb_true_iff in V as [V1 V2]. apply negb_true_iff in V1. rewrite V1 in Hx.
-      destruct e; try discriminate. simpl in Hx. destruct (index a k) as [v|]; try discriminate. simpl in Hx.
+      destruct e; try discriminate. cbn [dkey] in Hx. destruct (index a k) as [v|]; try discriminate. simpl in Hx.
       eapply IH; eauto. }
   destruct a as [ | b | z | m e | s | items | kv ]; try discriminate.
   - simpl in H. eapply string_diff_nonempty; eauto.
   - cbn [touches] in T. cbn [render_diff] in H. apply existsb_exists in T. destruct T as [e [I V]].
+    cbv beta in V.
     destruct (render_entry (render_diff f c O) c (JArr items) e path) as [x|] eqn:Ex.
-    + eapply render_entries_nonempty; eauto.
+    + eapply (render_entries_nonempty (fun e => render_entry (render_diff f c O) c (JArr items) e path)); [exact I | exact Ex | exact (ENTRY e I V x Ex) | exact H].
     + exfalso. clear - I Ex H. revert evs H. induction d as [|y d IHd]; intros evs H; [destruct I|].
       simpl in H. destruct I as [->|I].
       * rewrite Ex in H. discriminate.
@@ -513,9 +568,11 @@ Proof.
   - cbn [touches] in T. cbn [render_diff] in H. apply existsb_exists in T. destruct T as [e [I V]].
     destruct (sort_entries d) as [ds|] eqn:Es; try discriminate. simpl in H.
     assert (I' : In e ds).
-    { unfold sort_entries in Es. destruct (_ || _); try discriminate. inversion Es; subst. apply sort_by_dkey_in. exact I. }
+    { unfold sort_entries in Es. destruct (forallb is_ks d || forallb (fun e0 => negb (is_ks e0)) d); try discriminate.
+      inversion Es; subst. apply (proj2 (sort_by_dkey_in _ _)). exact I. }
+    cbv beta in V.
     destruct (render_entry (render_diff f c O) c (JObj kv) e path) as [x|] eqn:Ex.
-    + eapply render_entries_nonempty; eauto.
+    + eapply (render_entries_nonempty (fun e => render_entry (render_diff f c O) c (JObj kv) e path)); [exact I' | exact Ex | exact (ENTRY e I V x Ex) | exact H].
     + exfalso. clear - I' Ex H. revert evs H. induction ds as [|y ds IHd]; intros evs H; [destruct I'|].
       simpl in H. destruct I' as [->|I'].
       * rewrite Ex in H. discriminate.
@@ -528,7 +585,7 @@ Qed.
 Definition ex_nb : json :=
   JObj [(of_ascii "cells", JArr [JObj [(of_ascii "cell_type", JStr (of_ascii "code")); (of_ascii "source", JStr (of_ascii "x"))]])].
 Definition ex_diff : list dentry :=
-  [DPatch (K "cells") [DPatch (KI 0) [DPatch (K "source") [DRemoveRange (KI 0) 1; DAddRange (KI 0) (VList [JStr (of_ascii "y")])]]]].
+  [DPatch (K "cells") [DPatch (KI 0) [DPatch (K "source") [DAddRange (KI 0) (VList [JStr (of_ascii "y")]); DRemoveRange (KI 0) 1]]]].
 Definition cfg_all : cfg := Build_cfg true true true true true true true true true true true true.
 Definition cfg_nosrc : cfg := Build_cfg false true true true true true true true true true true true.
 
